@@ -10,6 +10,7 @@
 //!                                     RecordBuf and on the lazy record
 //!   line ver infodefs fmtdefs ns rec ftab valid   a whole record: written line, eager and lazy re-read, spans
 //!   ltxt ver infodefs fmtdefs ns hextext ftab     arbitrary line text through both readers (see c09_line.rs)
+//!   multi ver infodefs fmtdefs ns rec^rec^.. ftab  records of one file read into reused buffers vs the single-line model
 //!   hw spec valid / hp hexlines                   headers against NV.Vcf.Header (see c09_hdr.rs)
 //! Implementation-only oracles (obs "-"):
 //!   rec  seed ver feat                generated header + record: write/read equality, lazy accessors
@@ -523,6 +524,7 @@ fn run(c: &Case) -> Obs {
         "hp" => hdr::run_hp(c),
         "line" => line::run_line(c),
         "ltxt" => line::run_ltxt(c),
+        "multi" => line::run_multi(c),
         "rec" => rec::run_rec(c),
         "hdr" => rec::run_hdr(c),
         "bad" => rec::run_bad(c),
@@ -541,6 +543,10 @@ fn generate(rng: &mut Rng, tier: &str, w: &mut CaseWriter) {
         line::gen_line(rng, rec::VERS[i % 4], mode, w);
     }
     line::gen_ltxt(rng, w, if thorough { 3000 } else { 250 });
+    // several records through one reused RecordBuf / the record_bufs() iterator / one reused lazy Record
+    for i in 0..(if thorough { 3000 } else { 300 }) {
+        line::gen_multi(rng, rec::VERS[i % 4], w);
+    }
     // headers against NV.Vcf.Header
     for i in 0..(if thorough { 4000 } else { 300 }) {
         hdr::gen_hw(rng, w, i % 3 == 2);
